@@ -34,7 +34,7 @@
 From CJ Require Import Base Dbl Heap Forest ForestLemmas CoreSpec CoreRefine CoreRefineMore CoreRefineReplace
   CoreRefineAddObject CoreRefineObject CoreRefineDupBase CoreRefineDupTree CoreRefineDupValue.
 From CJ Require Import TierBridgeDefs TierBridgeSort TierBridgeForest.
-From CJ Require Tree CompareDefs PointerDefs PatchDefs MergeDefs SortDefs SortSpec.
+From CJ Require Tree CompareDefs PointerDefs PatchDefs MergeDefs SortDefs SortSpec CoreRefineDupForest CoreRefineDup.
 From CJ.gen Require Import Constants.
 From stdpp Require Import gmap.
 From Coq Require Import Lia.
@@ -145,3 +145,567 @@ Proof.
   intros Hz. unfold CompareDefs.get_object_item. rewrite reify_children. cbn [tchildren].
   pose proof (key_pos_goi St flag name cs Hz O) as H. destruct flag; exact H.
 Qed.
+
+Lemma map_fmap {A B} (f : A -> B) (l : list A) : map f l = f <$> l.
+Proof. reflexivity. Qed.
+Lemma map_delete {A B} (f : A -> B) (k : nat) (l : list A) : map f (delete k l) = delete k (map f l).
+Proof. revert k. induction l as [|x r IH]; intros [|k]; cbn; try done. by rewrite IH. Qed.
+Lemma map_list_insert {A B} (f : A -> B) (k : nat) (x : A) (l : list A) : map f (<[k := x]> l) = <[k := f x]> (map f l).
+Proof. revert k. induction l as [|y r IH]; intros [|k]; cbn; try done. by rewrite IH. Qed.
+
+(** the by-key lookup of both tiers through [found_member]: Tier B returns (index, value of the member),
+    Tier A the identity of the member *)
+Lemma get_object_item_found St i d cs name flag : SortSpec.zfree name ->
+  CompareDefs.get_object_item (reify St (T i d cs)) (Some name) flag =
+  (fun kc => (kc.1, reify St kc.2)) <$> found_member St flag name cs.
+Proof.
+  intros Hz. rewrite get_object_item_reify by done. unfold found_member.
+  destruct (key_pos St flag name cs) as [k|]; [|done]. cbn. by destruct (cs !! k).
+Qed.
+Lemma find_key_found St (flag : bool) (name : bytes) cs :
+  (if flag then find_key_cs St name cs else find_key_ci St name cs) = (fun kc => tid kc.2) <$> found_member St flag name cs.
+Proof.
+  rewrite key_pos_find. unfold found_member. destruct (key_pos St flag name cs) as [k|]; [|done]. cbn. by destruct (cs !! k).
+Qed.
+Lemma found_member_lookup St flag name cs k c : found_member St flag name cs = Some (k, c) -> cs !! k = Some c.
+Proof.
+  unfold found_member. destruct (key_pos St flag name cs) as [j|]; [|done]. cbn.
+  destruct (cs !! j) as [c'|] eqn:E; [|done]. cbn. by intros [= <- <-].
+Qed.
+
+(** * 2. the container [p] is a node of the forest: queries, detach, delete, sort *)
+Section Container.
+  Context (St : gmap positive bytes) (F : forest) (p : positive) (d : rdata) (cs : list tree).
+  Hypothesis ND : NoDup (ids F).
+  Hypothesis Hp : find_tree p F = Some (T p d cs).
+  Notation obj := (reify St (T p d cs)).
+
+  (** a result pointer of the forest level designates the child *)
+  Lemma deref_child (k : nat) c : cs !! k = Some c -> find_tree (tid c) F = Some c.
+  Proof. intros Hk. eapply find_tree_child; [done..|by eapply elem_of_list_lookup_2]. Qed.
+
+  (** ** get_object_item / cJSON_GetObjectItem[CaseSensitive] *)
+  Theorem bridge_get_key nb (s : bytes) (flag : bool) : St !! nb = Some s ->
+    CompareDefs.get_object_item obj (Some (cstr s)) flag =
+      (fun kc => (kc.1, reify St kc.2)) <$> found_member St flag (cstr s) cs /\
+    spec_get_key St F (Some p) (Some nb) flag = (fun kc => tid kc.2) <$> found_member St flag (cstr s) cs.
+  Proof.
+    intros Hs. split; [apply get_object_item_found, SortSpec.cstr_zfree|].
+    unfold spec_get_key. rewrite (children_of_find _ _ _ _ Hp), Hs. apply find_key_found.
+  Qed.
+
+  Theorem bridge_get_key_commutes nb (s : bytes) (flag : bool) : St !! nb = Some s ->
+    snd <$> CompareDefs.get_object_item obj (Some (cstr s)) flag =
+    reify St <$> (spec_get_key St F (Some p) (Some nb) flag ≫= fun x => find_tree x F).
+  Proof.
+    intros Hs. destruct (bridge_get_key nb s flag Hs) as [-> ->].
+    destruct (found_member St flag (cstr s) cs) as [[k c]|] eqn:E; [|done]. cbn.
+    by rewrite (deref_child k c (found_member_lookup _ _ _ _ _ _ E)).
+  Qed.
+
+  (** ** get_array_item / cJSON_GetArrayItem, cJSON_GetArraySize *)
+  Theorem bridge_get_index idx :
+    PointerDefs.nth_z (Tree.n_children obj) idx = reify St <$> (if idx <? 0 then None else cs !! Z.to_nat idx) /\
+    spec_get_array_item F (Some p) idx = tid <$> (if idx <? 0 then None else cs !! Z.to_nat idx).
+  Proof.
+    split.
+    - rewrite nth_z_lookup, reify_children. cbn [tchildren]. destruct (idx <? 0); [done|].
+      by rewrite map_fmap, list_lookup_fmap.
+    - unfold spec_get_array_item, spec_get_index. rewrite (children_of_find _ _ _ _ Hp).
+      destruct (idx <? 0); [done|]. by rewrite list_lookup_fmap.
+  Qed.
+  Theorem bridge_get_index_commutes idx :
+    PointerDefs.nth_z (Tree.n_children obj) idx =
+    reify St <$> (spec_get_array_item F (Some p) idx ≫= fun x => find_tree x F).
+  Proof.
+    destruct (bridge_get_index idx) as [-> ->]. destruct (idx <? 0); [done|].
+    destruct (cs !! Z.to_nat idx) as [c|] eqn:E; [|done]. cbn. by rewrite (deref_child _ c E).
+  Qed.
+  Theorem bridge_get_size : spec_get_size F (Some p) = v_array_size obj.
+  Proof.
+    unfold spec_get_size, v_array_size. rewrite (children_of_find _ _ _ _ Hp), reify_children. cbn [tchildren].
+    by rewrite map_length.
+  Qed.
+
+  (** ** cJSON_DetachItemViaPointer of the [k]-th child *)
+  Lemma spec_detach_child (k : nat) tx : cs !! k = Some tx ->
+    spec_detach F (Some p) (Some (tid tx)) = (set_children p (delete k cs) F ++ [tx], Some (tid tx)).
+  Proof.
+    intros Hk. unfold spec_detach. rewrite (children_of_find _ _ _ _ Hp).
+    rewrite (index_of_lookup (tid <$> cs) k (tid tx)); [by rewrite Hk| |by rewrite list_lookup_fmap, Hk].
+    by eapply children_ids_NoDup.
+  Qed.
+  Lemma spec_detach_none : spec_detach F (Some p) None = (F, None).
+  Proof. done. Qed.
+
+  (** the object after "the [k]-th member is gone", and the detached item as a root *)
+  Lemma after_detach (k : nat) tx G : cs !! k = Some tx ->
+    reify St <$> find_tree p (set_children p (delete k cs) F ++ G) =
+      Some (PatchDefs.set_children obj (PatchDefs.remove_nth k (Tree.n_children obj))) /\
+    find_root (tid tx) (set_children p (delete k cs) F ++ [tx]) = Some tx.
+  Proof.
+    intros Hk. split.
+    - rewrite (find_tree_app_l _ _ _ _ (find_tree_set_children p d cs (delete k cs) F Hp)). cbn [fmap option_fmap option_map].
+      f_equal. rewrite reify_children. cbn [tchildren]. rewrite remove_nth_delete.
+      rewrite <- map_delete. symmetry. apply reify_set_children.
+    - by eapply find_detached.
+  Qed.
+
+  (** ** cJSON_DetachItemFromObject[CaseSensitive] *)
+  Theorem bridge_detach_key_explicit nb (s : bytes) (flag : bool) : St !! nb = Some s ->
+    spec_detach_key St F (Some p) (Some nb) flag =
+    match found_member St flag (cstr s) cs with
+    | Some (k, tx) => (set_children p (delete k cs) F ++ [tx], Some (tid tx))
+    | None => (F, None)
+    end.
+  Proof.
+    intros Hs. unfold spec_detach_key. rewrite (proj2 (bridge_get_key nb s flag Hs)).
+    destruct (found_member St flag (cstr s) cs) as [[k tx]|] eqn:E; [|done]. cbn.
+    apply spec_detach_child. by eapply found_member_lookup.
+  Qed.
+
+  (** as MergeDefs.v calls it *)
+  Theorem bridge_detach_key nb (s : bytes) (flag : bool) : St !! nb = Some s ->
+    let '(F', r) := spec_detach_key St F (Some p) (Some nb) flag in
+    let '(item, obj') := MergeDefs.mp_DetachItemFromObject obj (Some (cstr s)) flag in
+    reify St <$> find_tree p F' = Some obj' /\
+    reify St <$> (r ≫= fun x => find_root x F') = item /\
+    (r = None -> F' = F).
+  Proof.
+    intros Hs. rewrite (bridge_detach_key_explicit nb s flag Hs). unfold MergeDefs.mp_DetachItemFromObject.
+    rewrite (proj1 (bridge_get_key nb s flag Hs)).
+    destruct (found_member St flag (cstr s) cs) as [[k tx]|] eqn:E;
+      cbn [fmap option_fmap option_map fst snd mbind option_bind].
+    - apply found_member_lookup in E. destruct (after_detach k tx [tx] E) as [H1 H2].
+      rewrite mp_set_children_eq, mp_remove_nth_delete, <- (remove_nth_delete k (Tree.n_children obj)). by rewrite H1, H2.
+    - by rewrite Hp.
+  Qed.
+  (** as PatchDefs.detach_path writes it *)
+  Theorem bridge_detach_key_patch nb (s : bytes) (flag : bool) : St !! nb = Some s ->
+    let '(F', r) := spec_detach_key St F (Some p) (Some nb) flag in
+    match v_detach_from_object obj (cstr s) flag with
+    | Some (item, obj') =>
+        reify St <$> find_tree p F' = Some obj' /\ reify St <$> (r ≫= fun x => find_root x F') = Some item
+    | None => F' = F /\ r = None
+    end.
+  Proof.
+    intros Hs. rewrite (bridge_detach_key_explicit nb s flag Hs). unfold v_detach_from_object.
+    rewrite (proj1 (bridge_get_key nb s flag Hs)).
+    destruct (found_member St flag (cstr s) cs) as [[k tx]|] eqn:E;
+      cbn [fmap option_fmap option_map fst snd mbind option_bind]; [|done].
+    apply found_member_lookup in E. destruct (after_detach k tx [tx] E) as [H1 H2]. by rewrite H1, H2.
+  Qed.
+
+  (** ** cJSON_DeleteItemFromObject[CaseSensitive] *)
+  Theorem bridge_delete_key_explicit nb (s : bytes) (flag : bool) : St !! nb = Some s ->
+    spec_delete_key St F (Some p) (Some nb) flag =
+    match found_member St flag (cstr s) cs with
+    | Some (k, _) => set_children p (delete k cs) F
+    | None => F
+    end.
+  Proof.
+    intros Hs. unfold spec_delete_key. rewrite (bridge_detach_key_explicit nb s flag Hs).
+    destruct (found_member St flag (cstr s) cs) as [[k tx]|] eqn:E; [|done]. cbn [spec_delete].
+    apply found_member_lookup in E. by eapply remove_detached.
+  Qed.
+  Theorem bridge_delete_key nb (s : bytes) (flag : bool) : St !! nb = Some s ->
+    reify St <$> find_tree p (spec_delete_key St F (Some p) (Some nb) flag) =
+      Some (MergeDefs.mp_DeleteItemFromObject obj (Some (cstr s)) flag) /\
+    MergeDefs.mp_DeleteItemFromObject obj (Some (cstr s)) flag = v_delete_from_object obj (cstr s) flag.
+  Proof.
+    intros Hs. rewrite (bridge_delete_key_explicit nb s flag Hs).
+    unfold MergeDefs.mp_DeleteItemFromObject, MergeDefs.mp_DetachItemFromObject, v_delete_from_object, v_delete_members.
+    rewrite (proj1 (bridge_get_key nb s flag Hs)).
+    destruct (found_member St flag (cstr s) cs) as [[k tx]|] eqn:E;
+      cbn [fmap option_fmap option_map fst snd mbind option_bind].
+    - apply found_member_lookup in E. destruct (after_detach k tx [] E) as [H1 _]. rewrite app_nil_r in H1.
+      rewrite mp_set_children_eq, mp_remove_nth_delete, <- (remove_nth_delete k (Tree.n_children obj)). by rewrite H1.
+    - by rewrite Hp.
+  Qed.
+
+  (** ** array element by index: cJSON_DetachItemFromArray on the forest, Utils' own
+         [detach_item_from_array] at value level (deviation D1: same list function) *)
+  Theorem bridge_detach_index_explicit idx :
+    spec_detach_index F (Some p) idx =
+    match (if idx <? 0 then None else cs !! Z.to_nat idx) with
+    | Some tx => (set_children p (delete (Z.to_nat idx) cs) F ++ [tx], Some (tid tx))
+    | None => (F, None)
+    end.
+  Proof.
+    unfold spec_detach_index. destruct (idx <? 0) eqn:En; [done|].
+    pose proof (proj2 (bridge_get_index idx)) as Hg. unfold spec_get_array_item in Hg. rewrite En in Hg. rewrite Hg.
+    destruct (cs !! Z.to_nat idx) as [tx|] eqn:E; [|done]. cbn. by apply spec_detach_child.
+  Qed.
+  Theorem bridge_detach_index idx :
+    let '(F', r) := spec_detach_index F (Some p) idx in
+    match v_detach_from_array obj idx with
+    | Some (item, obj') =>
+        reify St <$> find_tree p F' = Some obj' /\ reify St <$> (r ≫= fun x => find_root x F') = Some item
+    | None => F' = F /\ r = None
+    end.
+  Proof.
+    rewrite bridge_detach_index_explicit. unfold v_detach_from_array. rewrite (proj1 (bridge_get_index idx)).
+    destruct (idx <? 0); [done|]. destruct (cs !! Z.to_nat idx) as [tx|] eqn:E;
+      cbn [fmap option_fmap option_map fst snd mbind option_bind]; [|done].
+    destruct (after_detach _ tx [tx] E) as [H1 H2]. by rewrite H1, H2.
+  Qed.
+End Container.
+
+(** * 3. the item is a detached root [x], the container [p] a node outside it: add, insert, replace *)
+Section RootItem.
+  Context (St : gmap positive bytes) (F : forest) (p x : positive) (d dx : rdata) (cs csx : list tree).
+  Hypothesis ND : NoDup (ids F).
+  Hypothesis Hne : p <> x.
+  Hypothesis Hx : find_root x F = Some (T x dx csx).
+  Hypothesis Hp0 : find_tree p (remove_root x F) = Some (T p d cs).
+  Notation obj := (reify St (T p d cs)).
+  Notation item := (reify St (T x dx csx)).
+  Notation F0 := (remove_root x F).
+
+  Lemma Hp_full : find_tree p F = Some (T p d cs).
+  Proof. by eapply find_tree_remove_root. Qed.
+
+  Lemma after_set cs' : reify St <$> find_tree p (set_children p cs' F0) = Some (reify St (T p d cs')).
+  Proof. by rewrite (find_tree_set_children p d cs cs' F0 Hp0). Qed.
+
+  (** ** add_item_to_array / cJSON_AddItemToArray *)
+  Theorem bridge_add_to_array :
+    spec_add_to_array F (Some p) (Some x) = (set_children p (cs ++ [T x dx csx]) F0, true) /\
+    reify St <$> find_tree p (spec_add_to_array F (Some p) (Some x)).1 = Some (v_add_to_array obj item).
+  Proof.
+    assert (E : spec_add_to_array F (Some p) (Some x) = (set_children p (cs ++ [T x dx csx]) F0, true)).
+    { unfold spec_add_to_array. rewrite decide_False by done. rewrite Hx. cbn zeta.
+      by rewrite (children_of_find _ _ _ _ Hp0). }
+    split; [done|]. rewrite E. cbn [fst]. rewrite after_set. f_equal.
+    unfold v_add_to_array. rewrite reify_children. cbn [tchildren].
+    rewrite <- (reify_set_children St p d cs (cs ++ [T x dx csx])). f_equal. by rewrite map_app.
+  Qed.
+
+  (** ** cJSON_InsertItemInArray (core: appends past the end) *)
+  Theorem bridge_core_insert which : 0 <= which ->
+    spec_insert F (Some p) which (Some x) =
+      (set_children p (if Z.to_nat which <? length cs then insert_at (Z.to_nat which) (T x dx csx) cs
+                       else cs ++ [T x dx csx])%nat F0, true) /\
+    reify St <$> find_tree p (spec_insert F (Some p) which (Some x)).1 = Some (v_core_insert_in_array obj which item).
+  Proof.
+    intros Hw.
+    assert (E : spec_insert F (Some p) which (Some x) =
+      (set_children p (if Z.to_nat which <? length cs then insert_at (Z.to_nat which) (T x dx csx) cs
+                       else cs ++ [T x dx csx])%nat F0, true)).
+    { unfold spec_insert. destruct (Z.ltb_spec which 0) as [|_]; [lia|]. cbn [orb].
+      rewrite bool_decide_eq_false_2 by (intros [= ?]; done).
+      unfold spec_get_index. rewrite (children_of_find _ _ _ _ Hp_full).
+      destruct (Nat.ltb_spec (Z.to_nat which) (length cs)) as [Hl|Hl].
+      - destruct (lookup_lt_is_Some_2 (tid <$> cs) (Z.to_nat which)) as [y Hy]; [by rewrite fmap_length|].
+        rewrite Hy, Hx. cbn zeta. by rewrite (children_of_find _ _ _ _ Hp0).
+      - rewrite (proj2 (lookup_ge_None (tid <$> cs) (Z.to_nat which))) by (by rewrite fmap_length).
+        apply bridge_add_to_array. }
+    split; [done|]. rewrite E. cbn [fst]. rewrite after_set. f_equal.
+    unfold v_core_insert_in_array. rewrite reify_children. cbn [tchildren]. rewrite map_length.
+    destruct (Nat.ltb_spec (Z.to_nat which) (length cs)) as [Hl|Hl].
+    - destruct (Z.ltb_spec which (Z.of_nat (length cs))) as [_|]; [|lia].
+      rewrite insert_nth_insert_at by (rewrite map_length; lia).
+      rewrite <- (reify_set_children St p d cs). f_equal. unfold insert_at.
+      by rewrite map_app, map_cons, !map_fmap, fmap_take, fmap_drop.
+    - destruct (Z.ltb_spec which (Z.of_nat (length cs))) as [|_]; [lia|].
+      rewrite <- (reify_set_children St p d cs). f_equal. by rewrite map_app.
+  Qed.
+
+  (** ** Utils' own insert_item_in_array (deviation D1): same list function for 0 <= which <= length … *)
+  Theorem bridge_insert_in_range which : 0 <= which <= Z.of_nat (length cs) ->
+    v_insert_in_array obj which item = Some (v_core_insert_in_array obj which item) /\
+    reify St <$> find_tree p (spec_insert F (Some p) which (Some x)).1 = v_insert_in_array obj which item.
+  Proof.
+    intros Hw.
+    assert (E : v_insert_in_array obj which item = Some (v_core_insert_in_array obj which item)).
+    { unfold v_insert_in_array, v_core_insert_in_array. rewrite reify_children. cbn [tchildren]. rewrite map_length.
+      destruct (Z.gtb_spec which (Z.of_nat (length cs))) as [|_]; [lia|]. do 2 f_equal.
+      destruct (Z.ltb_spec which (Z.of_nat (length cs))) as [|Hge]; [done|].
+      apply insert_nth_past_end. rewrite map_length. lia. }
+    split; [done|]. rewrite E. apply bridge_core_insert. lia.
+  Qed.
+  (** … and past the end the core function APPENDS while the Utils function REFUSES (apply_patch status 10) *)
+  Theorem insert_past_end_differs which : Z.of_nat (length cs) < which ->
+    v_insert_in_array obj which item = None /\
+    spec_insert F (Some p) which (Some x) = (set_children p (cs ++ [T x dx csx]) F0, true) /\
+    reify St <$> find_tree p (spec_insert F (Some p) which (Some x)).1 = Some (v_add_to_array obj item).
+  Proof.
+    intros Hw. split; [|split].
+    - unfold v_insert_in_array. rewrite reify_children. cbn [tchildren]. rewrite map_length.
+      destruct (Z.gtb_spec which (Z.of_nat (length cs))) as [_|]; [done|lia].
+    - rewrite (proj1 (bridge_core_insert which ltac:(lia))).
+      destruct (Nat.ltb_spec (Z.to_nat which) (length cs)); [lia|done].
+    - rewrite (proj2 (bridge_core_insert which ltac:(lia))). f_equal.
+      unfold v_core_insert_in_array, v_add_to_array. rewrite reify_children. cbn [tchildren]. rewrite map_length.
+      destruct (Z.ltb_spec which (Z.of_nat (length cs))); [lia|done].
+  Qed.
+
+  (** ** add_item_to_object with an owned fresh copy [nk] of the name (cJSON_AddItemToObject) *)
+  Lemma reify_owned_key nk (s' : bytes) : St !! nk = Some s' ->
+    reify St (T x (rd_owned_key dx nk) csx) = PatchDefs.keyed item (cstr s') /\
+    reify St (T x (rd_owned_key dx nk) csx) = MergeDefs.mp_keyed (cstr s') item.
+  Proof.
+    intros Hs. rewrite !reify_unfold. unfold PatchDefs.keyed, MergeDefs.mp_keyed, MergeDefs.mp_clear_const.
+    cbn [PatchDefs.set_key PatchDefs.set_ty Tree.n_ty rd_owned_key rd_set_key_type rd_type rd_vstr rd_vint rd_vdbl rd_key].
+    rewrite Z.ldiff_land. cbn [cstr_of]. rewrite Hs. done.
+  Qed.
+
+  Theorem bridge_add_to_object sb nk (s' : bytes) : St !! nk = Some s' ->
+    let d' := rd_owned_key dx nk in
+    spec_add_to_object F (Some p) (Some sb) (Some x) false (Some nk) = (set_children p (cs ++ [T x d' csx]) F0, true) /\
+    reify St <$> find_tree p (spec_add_to_object F (Some p) (Some sb) (Some x) false (Some nk)).1 =
+      Some (v_add_to_object obj (cstr s') item) /\
+    v_add_to_object obj (cstr s') item = MergeDefs.mp_AddItemToObject obj (Some (cstr s')) (Some item).
+  Proof.
+    intros Hs d'.
+    destruct (set_data_root F x dx csx d' ND Hx) as (_ & Hx' & Hrr).
+    assert (E : spec_add_to_object F (Some p) (Some sb) (Some x) false (Some nk) = (set_children p (cs ++ [T x d' csx]) F0, true)).
+    { unfold spec_add_to_object. rewrite decide_False by done. rewrite Hx. cbn [tdata]. fold d'.
+      unfold spec_add_to_array. rewrite decide_False by done. rewrite Hx', Hrr. cbn zeta.
+      by rewrite (children_of_find _ _ _ _ Hp0). }
+    destruct (reify_owned_key nk s' Hs) as [K1 K2]. fold d' in K1, K2.
+    split; [done|]. split.
+    - rewrite E. cbn [fst]. rewrite after_set. f_equal. unfold v_add_to_object. rewrite reify_children. cbn [tchildren].
+      rewrite <- (reify_set_children St p d cs). f_equal. rewrite map_app. cbn [map]. by rewrite K1.
+    - unfold v_add_to_object, MergeDefs.mp_AddItemToObject, MergeDefs.mp_add_member. by rewrite <- K1, K2.
+  Qed.
+
+  (** ** replace_item_in_object / cJSON_ReplaceItemInObject[CaseSensitive]: re-key the replacement with the
+         owned copy [nk], look the member up BY THE COPY, replace it *)
+  Theorem bridge_replace_key sb nk (s' : bytes) (flag : bool) : St !! nk = Some s' ->
+    let d' := rd_owned_key dx nk in
+    let F1 := set_data x d' F in
+    spec_replace_key St F (Some p) (Some sb) (Some x) flag (Some nk) =
+      match found_member St flag (cstr s') cs with
+      | Some (k, _) => (set_children p (<[k := T x d' csx]> cs) F0, true)
+      | None => (F1, false)
+      end /\
+    match v_replace_in_object obj (cstr s') item flag with
+    | Some obj' => reify St <$> find_tree p (spec_replace_key St F (Some p) (Some sb) (Some x) flag (Some nk)).1 = Some obj'
+    | None => (spec_replace_key St F (Some p) (Some sb) (Some x) flag (Some nk)).2 = false
+    end.
+  Proof.
+    intros Hs d' F1.
+    destruct (set_data_root F x dx csx d' ND Hx) as (Hin & Hx' & Hrr). fold F1 in Hx', Hrr.
+    assert (ND1 : NoDup (ids F1)).
+    { unfold F1. destruct (flat_set_data F x dx csx ND Hin) as (FL & E1 & E2).
+      rewrite ids_flat, (E2 d'). pose proof ND as ND'. rewrite ids_flat, E1 in ND'. exact ND'. }
+    assert (Hp1 : find_tree p F1 = Some (T p d cs)).
+    { apply (find_tree_remove_root F1 x (T x d' csx) p); [done..|by rewrite Hrr]. }
+    assert (E : spec_replace_key St F (Some p) (Some sb) (Some x) flag (Some nk) =
+      match found_member St flag (cstr s') cs with
+      | Some (k, _) => (set_children p (<[k := T x d' csx]> cs) F0, true)
+      | None => (F1, false)
+      end).
+    { unfold spec_replace_key. rewrite Hx. cbn [tdata]. fold d' F1.
+      rewrite (proj2 (bridge_get_key St F1 p d cs Hp1 nk s' flag Hs)).
+      destruct (found_member St flag (cstr s') cs) as [[k ty]|] eqn:Ef; cbn [fmap option_fmap option_map snd].
+      - apply found_member_lookup in Ef. unfold spec_replace. rewrite (children_of_find _ _ _ _ Hp1).
+        destruct cs as [|c0 r0] eqn:Ecs; [done|]. rewrite <- Ecs in *.
+        assert (Hxy : x <> tid ty).
+        { intros ->. apply (child_is_not_root F1 p d cs ty ND1 Hp1); [by eapply elem_of_list_lookup_2|].
+          apply find_root_Some in Hx' as [Hin' _]. apply elem_of_list_fmap. by exists (T (tid ty) d' csx). }
+        rewrite decide_False by done. rewrite Hx', Hrr. cbn zeta. rewrite (children_of_find _ _ _ _ Hp0).
+        rewrite (index_of_lookup (tid <$> cs) k (tid ty)); [done| |by rewrite list_lookup_fmap, Ef].
+        by eapply children_ids_NoDup.
+      - done. }
+    split; [done|]. rewrite E. unfold v_replace_in_object.
+    rewrite (get_object_item_found St p d cs (cstr s') flag (SortSpec.cstr_zfree _)).
+    destruct (found_member St flag (cstr s') cs) as [[k ty]|] eqn:Ef; cbn [fmap option_fmap option_map fst snd]; [|done].
+    rewrite after_set. f_equal. rewrite reify_children. cbn [tchildren]. rewrite replace_nth_insert.
+    rewrite <- (reify_set_children St p d cs). f_equal. rewrite map_list_insert. f_equal.
+    apply (reify_owned_key nk s' Hs).
+  Qed.
+End RootItem.
+
+(** * 4. cJSON_Duplicate(item, 1) *)
+Definition vdepth_list : list Tree.node -> nat :=
+  fix go l := match l with [] => O | c :: r => Nat.max (Tree.node_depth c) (go r) end.
+Lemma node_depth_unfold t s i d k cs : Tree.node_depth (Tree.Node t s i d k cs) = S (vdepth_list cs).
+Proof. reflexivity. Qed.
+
+Definition dup_list (depth : Z) : list Tree.node -> option (list Tree.node) :=
+  fix go (l : list Tree.node) : option (list Tree.node) :=
+    match l with
+    | [] => Some []
+    | c :: r =>
+        if depth >=? c_CJSON_CIRCULAR_LIMIT then None
+        else match PatchDefs.dup_rec c (depth + 1) with
+             | None => None
+             | Some c' => match go r with None => None | Some r' => Some (c' :: r') end
+             end
+    end.
+Lemma dup_rec_unfold ty vs vi vd k cs depth :
+  PatchDefs.dup_rec (Tree.Node ty vs vi vd k cs) depth =
+  match dup_list depth cs with
+  | None => None
+  | Some cs' => Some (Tree.Node (Z.ldiff ty c_cJSON_IsReference) vs vi vd k cs')
+  end.
+Proof. reflexivity. Qed.
+
+(** whenever the value-level duplicate succeeds it is [clear_refs] of the item *)
+Lemma dup_rec_clear_refs item : forall depth v, PatchDefs.dup_rec item depth = Some v -> v = clear_refs item.
+Proof.
+  induction item as [ty vs vi vd k cs IH] using Tree.node_ind'. intros depth v. rewrite dup_rec_unfold.
+  assert (Hl : forall cs', dup_list depth cs = Some cs' -> cs' = map clear_refs cs).
+  { induction cs as [|c r IHr]; intros cs'; cbn [dup_list]; [by intros [= <-]|].
+    apply List.Forall_cons_iff in IH as [IHc IHr'].
+    destruct (depth >=? c_CJSON_CIRCULAR_LIMIT); [done|].
+    destruct (PatchDefs.dup_rec c (depth + 1)) as [c'|] eqn:Ec; [|done].
+    fold (dup_list depth r). destruct (dup_list depth r) as [r'|]; [|done]. intros [= <-].
+    cbn [map]. f_equal; [by eapply IHc|by apply IHr]. }
+  destruct (dup_list depth cs) as [cs'|]; [|done]. intros [= <-]. cbn [clear_refs].
+  rewrite Z.ldiff_land. f_equal. by apply Hl.
+Qed.
+
+(** it succeeds when the nesting below the item fits under CJSON_CIRCULAR_LIMIT *)
+Lemma dup_rec_succeeds item : forall depth,
+  depth + Z.of_nat (Tree.node_depth item) - 1 <= c_CJSON_CIRCULAR_LIMIT ->
+  PatchDefs.dup_rec item depth = Some (clear_refs item).
+Proof.
+  induction item as [ty vs vi vd k cs IH] using Tree.node_ind'. intros depth Hd. rewrite dup_rec_unfold.
+  rewrite node_depth_unfold in Hd.
+  assert (Hl : dup_list depth cs = Some (map clear_refs cs)).
+  { induction cs as [|c r IHr]; [done|]. cbn [dup_list vdepth_list] in *.
+    apply List.Forall_cons_iff in IH as [IHc IHr'].
+    assert (1 <= Tree.node_depth c)%nat by (destruct c; rewrite node_depth_unfold; lia).
+    destruct (Z.geb_spec depth c_CJSON_CIRCULAR_LIMIT) as [|_]; [lia|].
+    rewrite IHc by lia. fold (dup_list depth r). rewrite IHr; [done|done|lia]. }
+  rewrite Hl. cbn [clear_refs]. by rewrite Z.ldiff_land.
+Qed.
+
+(** the two transliterations of cJSON_Duplicate are the same function *)
+Lemma mp_dup_rec_eq item : forall depth, MergeDefs.mp_dup_rec depth item = PatchDefs.dup_rec item depth.
+Proof.
+  induction item as [ty vs vi vd k cs IH] using Tree.node_ind'. intros depth. rewrite dup_rec_unfold.
+  cbn [MergeDefs.mp_dup_rec].
+  assert (Hl : (fix go (l : list Tree.node) : option (list Tree.node) :=
+                  match l with
+                  | [] => Some []
+                  | c :: r =>
+                      if c_CJSON_CIRCULAR_LIMIT <=? depth then None
+                      else match MergeDefs.mp_dup_rec (depth + 1) c with
+                           | None => None
+                           | Some c' => match go r with None => None | Some r' => Some (c' :: r') end
+                           end
+                  end) cs = dup_list depth cs).
+  { induction cs as [|c r IHr]; [done|]. apply List.Forall_cons_iff in IH as [IHc IHr'].
+    cbn [dup_list]. rewrite IHc, (IHr IHr'). rewrite Z.geb_leb. done. }
+  rewrite Hl. destruct (dup_list depth cs); [|done]. unfold MergeDefs.mp_clear_ref. by rewrite Z.ldiff_land.
+Qed.
+
+Lemma height_node_depth St t : Tree.node_depth (reify St t) = S (CoreRefineDupForest.height t).
+Proof.
+  induction t as [i d cs IH] using tree_ind'. rewrite reify_unfold, node_depth_unfold, CoreRefineDupForest.height_unfold.
+  f_equal. induction cs as [|c r IHr]; [done|]. apply Forall_cons in IH as [IHc IHr'].
+  cbn [map vdepth_list CoreRefineDupForest.height_list]. rewrite IHc, (IHr IHr'). done.
+Qed.
+
+(** [copy_of h t tc] is what the heap-level cJSON_Duplicate produces (CoreRefineDupForest.dup_copy,
+    Properties_C11): reifying the copy gives what both value-level models compute *)
+Theorem bridge_duplicate h t tc :
+  copy_of h t tc ->
+  (forall v, PatchDefs.cJSON_Duplicate (reify (h_str h) t) = Some v -> v = reify (h_str h) tc) /\
+  (forall v, MergeDefs.mp_Duplicate (Some (reify (h_str h) t)) = Some v -> v = reify (h_str h) tc) /\
+  ((CoreRefineDupForest.height t <= Z.to_nat c_CJSON_CIRCULAR_LIMIT)%nat ->
+     PatchDefs.cJSON_Duplicate (reify (h_str h) t) = Some (reify (h_str h) tc) /\
+     MergeDefs.mp_Duplicate (Some (reify (h_str h) t)) = Some (reify (h_str h) tc)).
+Proof.
+  intros Hc. pose proof (copy_reify h t tc Hc) as E. unfold PatchDefs.cJSON_Duplicate, MergeDefs.mp_Duplicate.
+  rewrite mp_dup_rec_eq. split; [|split].
+  - intros v Hv. rewrite E. by eapply dup_rec_clear_refs.
+  - intros v Hv. rewrite E. by eapply dup_rec_clear_refs.
+  - intros Hh. rewrite E. pose proof CoreRefineDup.limit_nonneg as Hl.
+    split; apply dup_rec_succeeds; rewrite height_node_depth; lia.
+Qed.
+
+(** * 5. constructors: a new root without children reifies to the value-level constructor *)
+Lemma cstr_app_zero (s r : bytes) : SortSpec.zfree s -> cstr (s ++ 0 :: r) = s.
+Proof.
+  induction 1 as [|c s Hc Hs IH]; cbn [app cstr]; [done|].
+  destruct (Z.eqb_spec c 0); [done|]. by rewrite IH.
+Qed.
+Theorem bridge_create_typed St id ty :
+  reify St (T id (mkRD ty None 0 dzero None None) []) = MergeDefs.mp_new_item ty.
+Proof. reflexivity. Qed.
+Theorem bridge_create_object_array St id :
+  reify St (T id (mkRD c_cJSON_Object None 0 dzero None None) []) = PatchDefs.create_object /\
+  reify St (T id (mkRD c_cJSON_Array None 0 dzero None None) []) = PatchDefs.create_array /\
+  reify St (T id (mkRD c_cJSON_NULL None 0 dzero None None) []) = MergeDefs.mp_CreateNull.
+Proof. done. Qed.
+Theorem bridge_create_string St id b (s : bytes) :
+  St !! b = Some (s ++ [0]) -> SortSpec.zfree s ->
+  reify St (T id (mkRD c_cJSON_String (Some b) 0 dzero None None) []) = PatchDefs.create_string s.
+Proof.
+  intros Hb Hz. rewrite reify_unfold. cbn [cstr_of rd_vstr rd_key rd_type rd_vint rd_vdbl map]. unfold bytes in *. rewrite Hb.
+  cbn [fmap option_fmap option_map]. by rewrite cstr_app_zero.
+Qed.
+
+(** * 6. the member sort *)
+
+(** [SortDefs.sort_spec] on the (identity, key) pairs of the members = [sort_children] on the members *)
+Lemma sort_spec_children St flag cs :
+  map fst (SortDefs.sort_spec flag (member_pairs St cs)) = tid <$> sort_children St flag cs.
+Proof.
+  unfold SortDefs.sort_spec, member_pairs, sort_children.
+  rewrite (SortSpec.isort_map (fun c => (tid c, fkey St c)) (SortDefs.member_le flag) cs).
+  rewrite map_map. cbn [fst]. rewrite map_fmap. f_equal.
+Qed.
+
+(** reifying the sorted members = the stable sort of the reified members by [vle] *)
+Lemma reify_sort_children St flag cs :
+  map (reify St) (sort_children St flag cs) = SortDefs.isort (vle flag) (map (reify St) cs).
+Proof.
+  rewrite SortSpec.isort_map. unfold sort_children. f_equal. apply SortSpec.isort_ext.
+  intros a b. unfold tle, vle. by rewrite !vkey_reify.
+Qed.
+
+(** a reordering of the members is determined by the order of their identities *)
+Lemma same_ids_same_trees (cs cs1 : list tree) : forall cs2,
+  NoDup (tid <$> cs) -> cs1 ⊆ cs -> cs2 ⊆ cs -> tid <$> cs1 = tid <$> cs2 -> cs1 = cs2.
+Proof.
+  induction cs1 as [|a r IH]; intros [|b r2] ND H1 H2 E; try done.
+  rewrite !fmap_cons in E. injection E as Eab Er.
+  assert (a = b) as ->.
+  { apply (NoDup_fmap_inj_on tid cs a b ND); [apply H1; by left|apply H2; by left|done]. }
+  f_equal. apply IH; [done| | |done].
+  - intros z Hz. apply H1. by right.
+  - intros z Hz. apply H2. by right.
+Qed.
+
+Section SortBridge.
+  Context (St : gmap positive bytes) (F : forest) (p : positive) (d : rdata) (cs : list tree).
+  Hypothesis ND : NoDup (ids F).
+  Hypothesis Hp : find_tree p F = Some (T p d cs).
+  Hypothesis Hkeys : Forall (has_key St) cs.
+  Notation obj := (reify St (T p d cs)).
+
+  (** C19 determines the children identities after the heap-level [sort_object]:
+      [map fst (sort_spec flag (pairs before))]; [cs'] = the same member subtrees in that order *)
+  Theorem bridge_sort (flag : bool) cs' :
+    cs' ≡ₚ cs -> tid <$> cs' = map fst (SortDefs.sort_spec flag (member_pairs St cs)) ->
+    cs' = sort_children St flag cs /\
+    PatchDefs.sort_object obj flag = Ok (reify St (T p d cs')) /\
+    MergeDefs.mp_sort_object obj flag = Ok (reify St (T p d cs')) /\
+    MergeDefs.mp_sort_members flag (Tree.n_children obj) = Ok (map (reify St) cs') /\
+    PatchDefs.sort_list (S (length (Tree.n_children obj))) (Tree.n_children obj) flag = Ok (map (reify St) cs') /\
+    reify St <$> find_tree p (set_children p cs' F) = Some (reify St (T p d cs')).
+  Proof.
+    intros Hperm Hids.
+    assert (E : cs' = sort_children St flag cs).
+    { apply (same_ids_same_trees cs); [by eapply children_ids_NoDup| | |by rewrite Hids, sort_spec_children].
+      - intros z Hz. by rewrite <- Hperm.
+      - intros z Hz. unfold sort_children in Hz. by rewrite SortSpec.isort_perm in Hz. }
+    assert (Hk : Forall keyed (Tree.n_children obj)).
+    { rewrite reify_children. cbn [tchildren]. by apply Forall_reify_keyed. }
+    assert (Hc : Tree.n_children obj = map (reify St) cs) by (by rewrite reify_children).
+    assert (Hs : SortDefs.isort (vle flag) (Tree.n_children obj) = map (reify St) cs').
+    { by rewrite Hc, E, reify_sort_children. }
+    split; [done|]. split_and!.
+    - rewrite patch_sort_object_isort by done. by rewrite Hs.
+    - rewrite mp_sort_object_isort by done. by rewrite Hs.
+    - rewrite mp_sort_members_isort by done. by rewrite Hs.
+    - rewrite patch_sort_list_isort; [by rewrite Hs|lia|done].
+    - by rewrite (find_tree_set_children p d cs _ F Hp).
+  Qed.
+End SortBridge.
